@@ -1,5 +1,7 @@
 mod backoff;
 mod decoders;
+mod net;
+mod net_c03;
 mod sim;
 mod sim_ps;
 mod sim_rr;
@@ -17,6 +19,7 @@ fn main() {
     match args[0].as_str() {
         "backoff" => backoff::main(&args[1..]),
         "topic" => topic::main(&args[1..]),
+        "c03" => net_c03::main(&args[1..]),
         "ps" => sim_ps::main(&args[1..]),
         "rr" => sim_rr::main(&args[1..]),
         "decoders" => decoders::main(&args[1..]),
